@@ -21,6 +21,9 @@ Sub-checks
              (two array pairs; a genotype matrix's vrnt_chrgrp / vrnt_phypos reached through its getters): interp_genpos,
              gdist1p, gdist2p, rprob1p, rprob2p, interp_gmap, matrix.interp_genpos / interp_xoprob -- every answer is the
              reference answer for the contents the arrays hold at the time of that call
+Chromosome labels, in every sub-check but mapfn: arbitrary integers of any integer dtype (label_world) -- negative, 0, -1, the
+dtype's min / max, values around the 8/16/32/53/63/64-bit borders, narrow and unsigned dtypes, a query / genotype-matrix dtype
+other than the map's; the oracle keys chromosomes by equality of Python ints.
 """
 import math
 from fractions import Fraction
@@ -58,6 +61,9 @@ ASSUMPTIONS = [
     "position) after every in-place edit; a matrix whose chromosome run lengths changed is grouped again before it is interpolated "
     "(a run that is only relabelled, keeping the array sorted, may or may not be); what the matrix holds is read back through its "
     "getters before the call, so the clause does not depend on the getters handing out the stored arrays",
+    "chromosome labels are arbitrary integers in any numpy integer dtype (every vrnt_chrgrp argument / setter of the two map classes "
+    "and of the genotype matrices checks 'integer dtype' and nothing more); two markers are on the same chromosome iff their labels "
+    "are equal as integers, whatever the dtypes of the arrays that carry them; maps and grouped matrices order chromosomes numerically",
 ]
 
 EPS = 2.0 ** -52
@@ -198,11 +204,71 @@ def check_mapfn(case, ctx):
 # ----------------------------------------------------------------------------------------------------------------------
 G_INC = [0.0, 0.0, 0.001, 0.01, 0.1, 0.1, 0.5, 1.0]
 
+# Chromosome labels are arbitrary integers: the library accepts any integer dtype for vrnt_chrgrp (maps, queries, genotype
+# matrices) and nothing in the property singles out a value.  Two styles: "plain" (small positive ids, int64) and "wide" (a drawn
+# integer dtype; labels from the values an implementation is tempted to reserve -- -1, 0, the dtype's min / max and their
+# neighbours, powers of two around the 8/16/32/53/63/64-bit borders -- plus uniform draws over the whole dtype range).
+# The oracle keys chromosomes by EQUALITY of Python ints (dict lookup) and orders them numerically; nothing else.
+INT_DTYPES = ["int8", "int16", "int32", "int64", "uint8", "uint16", "uint32", "uint64"]
+LAB_DTYPES = ["int64", "int64", "int64", "int32", "int16", "int8", "uint8", "uint16", "uint32", "uint64"]
+LAB_POOL = [-1, 0, 1, 2, -2, -3, 127, 128, -128, -129, 255, 256, 32767, 32768, -32768, -32769, 65535, 65536,
+            2 ** 31 - 1, 2 ** 31, -2 ** 31, -2 ** 31 - 1, 2 ** 32 - 1, 2 ** 32, 2 ** 32 + 1, 2 ** 53, 2 ** 53 + 1, -2 ** 53 - 1,
+            2 ** 63 - 1, 2 ** 63 - 2, -2 ** 63, -2 ** 63 + 1, 2 ** 63, 2 ** 63 + 1, 2 ** 64 - 1, 2 ** 64 - 2, 10 ** 9, 10 ** 12, 10 ** 18]
+N_ABSENT = 5
+
+
+def dt_range(dt):
+    ii = numpy.iinfo(dt)
+    return int(ii.min), int(ii.max)
+
+
+def chr_array(vals, dt="int64"):
+    return numpy.array([int(v) for v in vals], dtype=dt)
+
+
+@st.composite
+def label_world(draw, n, plain=(1, 12)):
+    """n distinct chromosome labels + N_ABSENT distinct labels the map does not have + dtypes for the map and for queries"""
+    if draw(st.sampled_from(["plain", "plain", "wide", "wide", "wide"])) == "plain":
+        labels = draw(st.lists(st.integers(plain[0], plain[1]), min_size=n, max_size=n, unique=True))
+        return {"labels": labels, "absent": [max(labels) + 1 + d for d in range(N_ABSENT)], "lab_dtype": "int64", "qdtype": "int64"}
+    dt = draw(st.sampled_from(LAB_DTYPES))
+    lo, hi = dt_range(dt)
+    elem = st.one_of(st.sampled_from([v for v in (-1, -1, 0, lo, hi, lo + 1, hi - 1) if lo <= v <= hi]),
+                     st.sampled_from([v for v in LAB_POOL if lo <= v <= hi]),
+                     st.integers(max(lo, -3), min(hi, 12)), st.integers(lo, hi))
+    vals = draw(st.lists(elem, min_size=n + N_ABSENT, max_size=n + N_ABSENT, unique=True))
+    fits = [d for d in INT_DTYPES if all(dt_range(d)[0] <= v <= dt_range(d)[1] for v in vals)]
+    return {"labels": vals[:n], "absent": vals[n:], "lab_dtype": dt, "qdtype": draw(st.sampled_from([dt, dt, dt] + fits))}
+
+
+def label_labels(ctx, labels, dt, queried=None, qdt=None):
+    """histogram of the label situations a case contains (labels = the map's, in dtype dt; queried = labels asked about, in qdt)"""
+    if queried is not None and len(queried):
+        lo, hi = dt_range(qdt or dt)
+        queried = [int(c) for c in queried]
+        ctx.label("first_queried_label_is_-1", min(queried) == -1)
+        ctx.label("first_queried_label_is_0", min(queried) == 0)
+        ctx.label("first_queried_label_is_dtype_min_or_max", min(queried) in (lo, hi))
+        ctx.label("last_queried_label_is_-1_0_or_dtype_max", max(queried) in (-1, 0, hi))
+    if labels is None:
+        return
+    lo, hi = dt_range(dt)
+    labels = [int(c) for c in labels]
+    ctx.label("chr_label_negative", any(c < 0 for c in labels))
+    ctx.label("chr_label_beyond_32_bits", any(not -2 ** 31 <= c < 2 ** 31 for c in labels))
+    ctx.label("chr_dtype_narrow_or_unsigned", dt != "int64")
+    ctx.label("chr_smallest_label_is_-1", min(labels) == -1)
+    ctx.label("chr_smallest_label_is_0", min(labels) == 0)
+    ctx.label("chr_label_is_dtype_min", min(labels) == lo)
+    ctx.label("chr_label_is_dtype_max", max(labels) == hi)
+
 
 @st.composite
 def map_strategy(draw):
     nchr = draw(st.integers(1, 5))
-    labels = draw(st.lists(st.integers(1, 12), min_size=nchr, max_size=nchr, unique=True))
+    world = draw(label_world(nchr))
+    labels = world["labels"]
     chroms = []
     for lab in labels:
         n = draw(st.integers(2, 8))
@@ -226,7 +292,8 @@ def map_strategy(draw):
             "cls": draw(st.sampled_from(["standard", "extended"])),
             "units": draw(st.sampled_from(["M", "M", "cM", "Morgans", "centiMorgans"])),
             "names": draw(st.booleans()),
-            "auto_group": draw(st.sampled_from([True, True, True, False]))}
+            "auto_group": draw(st.sampled_from([True, True, True, False])),
+            "lab_dtype": world["lab_dtype"], "qdtype": world["qdtype"], "absent": world["absent"]}
 
 
 QUERY = st.fixed_dictionaries({"kind": st.sampled_from(["own", "own", "mid", "mid", "mid", "left", "right", "absent"]),
@@ -253,7 +320,7 @@ def unit_factor(units):
 def build_map(mc, order):
     rows = map_rows(mc)
     rows = [rows[i] for i in order]
-    chrgrp = numpy.array([r[0] for r in rows], dtype="int64")
+    chrgrp = chr_array([r[0] for r in rows], mc.get("lab_dtype", "int64"))
     phypos = numpy.array([r[1] for r in rows], dtype="int64")
     genpos = numpy.array([r[2] for r in rows], dtype="float64")
     ag = bool(mc.get("auto_group", True))
@@ -314,19 +381,27 @@ def build_queries(mc, qs):
     model_x = {}
     for (c, x, g) in map_rows(mc):
         model_x.setdefault(c, []).append(x)
-    return build_queries_x(model_x, qs)
+    return build_queries_x(model_x, qs, mc.get("absent"))
 
 
-def build_queries_x(model_x, qs):
+def absent_labels(model_x, absent=None):
+    """labels the map does not have (drawn with the map; cases recorded before labels were widened: the next larger integers)"""
+    if absent is None:
+        return [max(model_x) + 1 + d for d in range(N_ABSENT)]
+    return [int(c) for c in absent if int(c) not in model_x]
+
+
+def build_queries_x(model_x, qs, absent=None):
     """queries (chromosome, position, kind) relative to a map given as dict label -> physical positions"""
     labels = sorted(model_x)
+    absent = absent_labels(model_x, absent)
     out = []
     for q in qs:
         lab = labels[int(q["c"]) % len(labels)]
         xs = sorted(model_x[lab])
         kind = q["kind"]
         if kind == "absent":
-            out.append((max(labels) + 1 + int(q["c"]) % 3, int(q["off"]) % 5000, "absent"))
+            out.append((absent[int(q["c"]) % 3], int(q["off"]) % 5000, "absent"))
             continue
         if kind == "mid":
             k = int(q["k"]) % (len(xs) - 1)
@@ -381,13 +456,14 @@ def check_interp(case, ctx):
     ctx.label("nchr>=2", nchr >= 2)
 
     m = build_map(mc, perm)
+    qdt = mc.get("qdtype", "int64")
     ctx.label("auto_group=False", not mc.get("auto_group", True))
     if not mc.get("auto_group", True):
         # rows are kept as given (the interpolant is still built from them); group() is what a caller does next
         ctx.check(not m.is_grouped() and m.vrnt_chrgrp.tolist() == [rows[i][0] for i in perm]
                   and m.vrnt_phypos.tolist() == [rows[i][1] for i in perm], "construct.ungrouped_rows_kept_as_given")
         early = build_queries(mc, case["queries"])
-        e_got = m.__class__.interp_genpos(m, numpy.array([q[0] for q in early], dtype="int64"), numpy.array([q[1] for q in early], dtype="int64"))
+        e_got = m.__class__.interp_genpos(m, chr_array([q[0] for q in early], qdt), numpy.array([q[1] for q in early], dtype="int64"))
         for q, g_ in zip(early, e_got.tolist()):
             val, tol, _ = ref_interp(model, q[0], q[1])
             ctx.check((math.isnan(val) and math.isnan(g_)) or abs(g_ - val) <= tol, "interp.map_built_from_unsorted_rows",
@@ -422,11 +498,13 @@ def check_interp(case, ctx):
         qs = [(c, x, "own") for c, x in zip(exp_chr, exp_phy)]
     if case["sort_query"]:
         qs = sorted(qs, key=lambda q: (q[0], q[1]))
-    qc = numpy.array([q[0] for q in qs], dtype="int64")
+    qc = chr_array([q[0] for q in qs], qdt)
     qx = numpy.array([q[1] for q in qs], dtype="int64")
     kinds = [q[2] for q in qs]
     for k in ("own", "mid", "left", "right", "absent"):
         ctx.label("query_" + k, k in kinds)
+    label_labels(ctx, sorted(model), mc.get("lab_dtype", "int64"), [q[0] for q in qs], qdt)
+    ctx.label("query_dtype_differs_from_map_dtype", qdt != mc.get("lab_dtype", "int64"))
     ctx.nontrivial(nchr >= 2 and "mid" in kinds and permuted)
     qc_snap, qx_snap = qc.copy(), qx.copy()
     got = m.interp_genpos(qc, qx)
@@ -488,7 +566,7 @@ def check_interp(case, ctx):
 
     # ---- p-forms of the distances = g-forms of the interpolated positions (sorted query)
     sq = sorted(qs, key=lambda q: (q[0], q[1]))
-    sc = numpy.array([q[0] for q in sq], dtype="int64")
+    sc = chr_array([q[0] for q in sq], qdt)
     sx = numpy.array([q[1] for q in sq], dtype="int64")
     sg = m.interp_genpos(sc, sx)
     d1 = m.gdist1p(sc, sx)
@@ -522,7 +600,8 @@ def check_interp(case, ctx):
 @st.composite
 def gdist_case(draw):
     nchr = draw(st.integers(1, 4))
-    labels = sorted(draw(st.lists(st.integers(0, 20), min_size=nchr, max_size=nchr, unique=True)))
+    world = draw(label_world(nchr, plain=(0, 20)))
+    labels = sorted(world["labels"])
     chroms = []
     for lab in labels:
         n = draw(st.integers(1, 6))
@@ -531,7 +610,7 @@ def gdist_case(draw):
                 for _ in range(n - 1)]
         chroms.append({"label": lab, "g0": g0, "incs": incs})
     return {"chroms": chroms, "cls": draw(st.sampled_from(["standard", "extended"])),
-            "sl": [draw(st.integers(0, 10 ** 6)) for _ in range(6)], "use_slices": draw(st.booleans())}
+            "sl": [draw(st.integers(0, 10 ** 6)) for _ in range(6)], "use_slices": draw(st.booleans()), "lab_dtype": world["lab_dtype"]}
 
 
 _TINY = {"chroms": [{"label": 1, "p0": 1, "gaps": [10], "g0": 0.0, "incs": [0.1]}], "perm": [0, 1], "units": "M", "names": False}
@@ -549,9 +628,10 @@ def check_gdist(case, ctx):
             gen_l.append(g)
     n = len(chr_l)
     m = build_map(dict(_TINY, cls=case["cls"]), [0, 1])
-    vc = numpy.array(chr_l, dtype="int64")
+    vc = chr_array(chr_l, case.get("lab_dtype", "int64"))
     vg = numpy.array(gen_l, dtype="float64")
     ctx.label(case["cls"])
+    label_labels(ctx, chr_l, case.get("lab_dtype", "int64"), chr_l)
     ctx.label("nchr>=2", len(case["chroms"]) >= 2)
     ctx.label("single_marker_chromosome", any(len(c["incs"]) == 0 for c in case["chroms"]))
     ctx.label("tied_positions", any(0.0 in [float(x) for x in c["incs"]] for c in case["chroms"]))
@@ -624,6 +704,7 @@ def check_xoprob(case, ctx):
     total = len(map_rows(mc))
     m = build_map(mc, [int(i) for i in mc["perm"]])
     qs = build_queries(mc, case["queries"])
+    qdt = mc.get("qdtype", "int64")
     p = len(qs)
     n = int(case["ntaxa"])
     rng = numpy.random.default_rng(case["gseed"])
@@ -635,12 +716,12 @@ def check_xoprob(case, ctx):
         extra = {"vrnt_genpos": 5.0 + 0.37 * numpy.arange(p, dtype="float64"), "vrnt_xoprob": numpy.full(p, 0.125)}
     if case["phased"]:
         mat = numpy.broadcast_to(tag, (2, n, p)).astype("int8") + 0 * rng.integers(0, 2, size=(2, n, p)).astype("int8")
-        g = DensePhasedGenotypeMatrix(mat.copy(), vrnt_chrgrp=numpy.array([q[0] for q in qs], dtype="int64"),
+        g = DensePhasedGenotypeMatrix(mat.copy(), vrnt_chrgrp=chr_array([q[0] for q in qs], qdt),
                                       vrnt_phypos=numpy.array([q[1] for q in qs], dtype="int64"),
                                       vrnt_name=numpy.array(["v%d" % i for i in range(p)], dtype=object), **extra)
     else:
         mat = numpy.broadcast_to(tag, (n, p)).astype("int8")
-        g = DenseGenotypeMatrix(mat.copy(), vrnt_chrgrp=numpy.array([q[0] for q in qs], dtype="int64"),
+        g = DenseGenotypeMatrix(mat.copy(), vrnt_chrgrp=chr_array([q[0] for q in qs], qdt),
                                 vrnt_phypos=numpy.array([q[1] for q in qs], dtype="int64"),
                                 vrnt_name=numpy.array(["v%d" % i for i in range(p)], dtype=object), **extra)
     congruent = all(all(ys[i] <= ys[i + 1] for i in range(len(ys) - 1)) for xs, ys in model.values())
@@ -652,6 +733,8 @@ def check_xoprob(case, ctx):
     ctx.label("congruent" if congruent else "non_congruent")
     nq_chr = len(set(q[0] for q in qs))
     ctx.label("variants_on>=2_chromosomes", nq_chr >= 2)
+    label_labels(ctx, sorted(model), mc.get("lab_dtype", "int64"), [q[0] for q in qs], qdt)
+    ctx.label("matrix_dtype_differs_from_map_dtype", qdt != mc.get("lab_dtype", "int64"))
     ctx.nontrivial(nq_chr >= 2 and "mid" in kinds)
 
     # ungrouped matrices are refused (documented ValueError)
@@ -743,8 +826,8 @@ def _model_rows(model):
     return chr_l, phy_l, gen_l
 
 
-def _new_map(cls, chr_l, phy_l, gen_l, **kw):
-    vc = numpy.array(chr_l, dtype="int64")
+def _new_map(cls, chr_l, phy_l, gen_l, dt="int64", **kw):
+    vc = chr_array(chr_l, dt)
     vx = numpy.array(phy_l, dtype="int64")
     vg = numpy.array(gen_l, dtype="float64")
     if cls == "standard":
@@ -752,7 +835,7 @@ def _new_map(cls, chr_l, phy_l, gen_l, **kw):
     return ExtendedGeneticMap(vc, vx, vx + 1, vg, **kw)
 
 
-def _verify_slot(ctx, slots, i, fixed_q, prefix, trail):
+def _verify_slot(ctx, slots, i, fixed_q, prefix, trail, qdt="int64"):
     """slot i against the reference model of its CURRENT rows (interpolation only when its interpolant is current)"""
     slot = slots[i]
     m, model = slot["m"], slot["model"]
@@ -766,7 +849,7 @@ def _verify_slot(ctx, slots, i, fixed_q, prefix, trail):
     for c in sorted(model):
         xs = model[c][0]
         qs.extend((c, (xs[k] + xs[k + 1]) // 2) for k in range(len(xs) - 1))
-    qc = numpy.array([q[0] for q in qs], dtype="int64")
+    qc = chr_array([q[0] for q in qs], qdt)
     qx = numpy.array([q[1] for q in qs], dtype="int64")
     got = m.interp_genpos(qc, qx).tolist()
     for (c, x), g in zip(qs, got):
@@ -790,13 +873,15 @@ def check_history(case, ctx):
     perm = [int(i) for i in mc["perm"]]
     model0 = ref_model(mc)
     ctx.label(cls)
+    ldt, qdt = mc.get("lab_dtype", "int64"), mc.get("qdtype", "int64")
+    label_labels(ctx, sorted(model0), ldt)
     m0 = build_map(mc, perm)
     # fixed query set: every marker position of the ORIGINAL map (so chromosomes that leave a map keep being queried) + drawn ones
     fixed_q = [(c, x) for c in sorted(model0) for x in model0[c][0]]
     fixed_q += [(q[0], q[1]) for q in build_queries(mc, case["queries"])]
     slots = [{"m": m0, "model": {c: (list(xs), list(ys)) for c, (xs, ys) in model0.items()}, "fresh": True,
               "origin": "constructed", "had": set(model0)}]
-    _verify_slot(ctx, slots, 0, fixed_q, "history.", "construction")
+    _verify_slot(ctx, slots, 0, fixed_q, "history.", "construction", qdt)
     trail = []
     seen = set()
     for op in case["ops"]:
@@ -867,7 +952,7 @@ def check_history(case, ctx):
                 if sum(1 for q in panel if q[0] == c) < 2:
                     x = [q[1] for q in panel if q[0] == c][0]
                     panel.append((c, x + 1 + int(op["k"]) % 50))
-            pc = numpy.array([q[0] for q in panel], dtype="int64")
+            pc = chr_array([q[0] for q in panel], qdt)
             px = numpy.array([q[1] for q in panel], dtype="int64")
             new = m.interp_gmap(pc, px) if cls == "standard" else m.interp_gmap(pc, px, px + 1)
             ctx.check(type(new) is type(m), "history.derived_map_class")
@@ -893,7 +978,7 @@ def check_history(case, ctx):
             sub = [c for n_, c in enumerate(labels) if (int(op["c"]) >> n_) & 1] or labels
             nmodel = {c: (list(model[c][0]), list(model[c][1])) for c in sub}
             chr_l, phy_l, gen_l = _model_rows(nmodel)
-            new = _new_map(cls, chr_l[::-1], phy_l[::-1], gen_l[::-1], spline=dict(m.spline))
+            new = _new_map(cls, chr_l[::-1], phy_l[::-1], gen_l[::-1], ldt, spline=dict(m.spline))
             slots.append({"m": new, "model": nmodel, "fresh": True, "origin": "constructed with the spline dictionary of #%d" % i,
                           "had": set(model)})
         trail.append("%s#%d" % (name, i))
@@ -905,7 +990,7 @@ def check_history(case, ctx):
         target = len(slots) - 1 if name in ("copy", "deepcopy", "derive", "reconstruct") else i
         tr = " -> ".join(trail)
         for j in range(len(slots)):
-            _verify_slot(ctx, slots, j, fixed_q, "history." if j == target else "history.other_map.", tr)
+            _verify_slot(ctx, slots, j, fixed_q, "history." if j == target else "history.other_map.", tr, qdt)
     nfresh = sum(1 for s_ in slots if s_["fresh"])
     ctx.label("maps>=2", len(slots) >= 2)
     ctx.label("other_map_rebuilt_while_source_alive", len(slots) >= 2 and any(t.startswith("build_spline#") and not t.endswith("#0") for t in trail))
@@ -941,7 +1026,7 @@ def _rq_kind(model, c, x):
     return "own" if x in xs else ("mid" if xs[0] < x < xs[-1] else "beyond")
 
 
-def _rq_edit(model, state, rd, keep_sorted):
+def _rq_edit(model, state, rd, keep_sorted, absent=None):
     """the marker set the caller wants to ask about next, derived from the one the arrays hold now"""
     n = len(state)
     model_x = {c: model[c][0] for c in model}
@@ -949,7 +1034,7 @@ def _rq_edit(model, state, rd, keep_sorted):
     if edit == "none":
         return list(state)
     if edit == "all":
-        new = [(q[0], q[1]) for q in build_queries_x(model_x, rd["qs"])]
+        new = [(q[0], q[1]) for q in build_queries_x(model_x, rd["qs"], absent)]
     elif edit in ("positions", "one_position"):
         # same chromosomes, other positions (one marker corrected / a drawn subset of the markers moved)
         which = {int(rd["k"]) % n} if edit == "one_position" else {i for i in range(n) if (int(rd["k"]) >> i) & 1} or {int(rd["k"]) % n}
@@ -966,7 +1051,9 @@ def _rq_edit(model, state, rd, keep_sorted):
         # every marker of one chromosome of the set moves to another label (in the map or not) that the set does not use yet
         used = sorted(set(c for c, _ in state))
         src = used[int(rd["k"]) % len(used)]
-        cand = [c for c in sorted(model_x) + [max(model_x) + d for d in range(1, 6)] if c not in used]
+        cand = [c for c in sorted(model_x) + absent_labels(model_x, absent) if c not in used]
+        if not cand:
+            return list(state)
         dst = cand[(int(rd["k"]) // 7) % len(cand)]
         new = []
         for i, (c, x) in enumerate(state):
@@ -1067,14 +1154,17 @@ def check_requery(case, ctx):
     if keep_sorted:
         init = sorted(init)
     p = len(init)
+    # arrays A (and the matrix) carry labels in the query dtype of the case, arrays B in the map's own dtype
+    ldt, qdt = mc.get("lab_dtype", "int64"), mc.get("qdtype", "int64")
+    label_labels(ctx, sorted(model), ldt)
     holders = {}
     for name in ("A", "B"):
-        holders[name] = {"qc": numpy.array([q[0] for q in init], dtype="int64"), "qx": numpy.array([q[1] for q in init], dtype="int64"),
-                         "state": list(init), "calls": 0}
+        holders[name] = {"qc": chr_array([q[0] for q in init], qdt if name == "A" else ldt),
+                         "qx": numpy.array([q[1] for q in init], dtype="int64"), "state": list(init), "calls": 0}
     g = None
     if keep_sorted:
         tag = (numpy.arange(p, dtype="int8") % 2)
-        gc = numpy.array([q[0] for q in init], dtype="int64")
+        gc = chr_array([q[0] for q in init], qdt)
         gx = numpy.array([q[1] for q in init], dtype="int64")
         if case["phased"]:
             g = DensePhasedGenotypeMatrix(numpy.broadcast_to(tag, (2, 1, p)).astype("int8"), vrnt_chrgrp=gc, vrnt_phypos=gx)
@@ -1087,7 +1177,7 @@ def check_requery(case, ctx):
     for r, rd in enumerate(case["rounds"]):
         hname = rd["holder"] if rd["holder"] in holders else "A"
         h = holders[hname]
-        new = _rq_edit(model, h["state"], rd, keep_sorted)
+        new = _rq_edit(model, h["state"], rd, keep_sorted, mc.get("absent"))
         changed = new != h["state"]
         if rd["rebuild"]:
             m.build_spline()
@@ -1147,6 +1237,8 @@ def check_requery(case, ctx):
                     _rq_pair(ctx, model, qs, refs, f.rprob2p(m, qc, qx), what, kind)
             ctx.check(numpy.array_equal(qc, snap_c) and numpy.array_equal(qx, snap_x), "requery.input_mutated", what)
             ctx.label("method_" + method)
+        if keep_sorted and qs:
+            label_labels(ctx, None, None, [q[0] for q in qs], qdt if hname != "B" else ldt)
         if h["calls"] >= 1 and changed:
             requeried += 1
             ctx.label("same_arrays_asked_again_after_in_place_edit")
@@ -1162,19 +1254,28 @@ SUBCHECKS = [
                   "probabilities (pool incl. 0, 0.5-ulp, 0.5 + floats) x 1d/2d/scalar; non-trivial = >=3 distinct d and >=3 distinct r",
              required_labels=("haldane", "kosambi", "d_has_0", "d_has_inf", "r_has_0.5", "d_has_subnormal")),
     SubCheck("gdist", check_gdist, gdist_case(), quick=400, thorough=4000, shards_quick=2,
-             rule="1-4 chromosomes x 1-6 markers sorted jointly, ties included, both classes, optional slices; "
+             rule="1-4 chromosomes (labels: arbitrary integers of any integer dtype) x 1-6 markers sorted jointly, ties included, "
+                  "both classes, optional slices; "
                   "non-trivial = >=2 chromosomes and an ordered triple on one of them",
-             required_labels=("nchr>=2", "single_marker_chromosome", "tied_positions")),
+             required_labels=("nchr>=2", "single_marker_chromosome", "tied_positions", "chr_label_negative", "chr_label_beyond_32_bits",
+                              "chr_dtype_narrow_or_unsigned", "chr_label_is_dtype_min", "chr_label_is_dtype_max",
+                              "first_queried_label_is_-1", "first_queried_label_is_0")),
     SubCheck("interp", check_interp, interp_case(), quick=600, thorough=4000, shards_quick=4,
-             rule="1-5 chromosomes x 2-8 markers (unique physical positions; congruent, flat and non-congruent genetic "
+             rule="1-5 chromosomes (labels: arbitrary integers of any integer dtype, queries possibly in another dtype) x 2-8 markers "
+                  "(unique physical positions; congruent, flat and non-congruent genetic "
                   "positions), shuffled rows, both classes, M/cM, queries (own, strictly between, beyond ends, absent chromosome); "
                   "non-trivial = >=2 chromosomes, >=1 query strictly between markers, rows actually permuted",
              required_labels=("standard", "extended", "units=cM", "rows_permuted", "non_congruent", "query_own", "query_mid",
-                              "query_left", "query_right", "query_absent", "interp_gmap_layout_same_as_source")),
+                              "query_left", "query_right", "query_absent", "interp_gmap_layout_same_as_source",
+                              "chr_label_negative", "chr_label_beyond_32_bits", "chr_dtype_narrow_or_unsigned", "chr_label_is_dtype_min",
+                              "chr_label_is_dtype_max", "first_queried_label_is_-1", "first_queried_label_is_0",
+                              "query_dtype_differs_from_map_dtype")),
     SubCheck("xoprob", check_xoprob, xoprob_case(), quick=500, thorough=4000, shards_quick=4,
              rule="map as in interp x genotype matrix (phased/unphased) whose variants are queries in drawn order x map function; "
                   "non-trivial = variants on >=2 chromosomes and >=1 strictly between map markers",
-             required_labels=("haldane", "kosambi", "phased", "unphased", "has_absent_chromosome", "variants_on>=2_chromosomes")),
+             required_labels=("haldane", "kosambi", "phased", "unphased", "has_absent_chromosome", "variants_on>=2_chromosomes",
+                              "chr_label_negative", "chr_dtype_narrow_or_unsigned", "first_queried_label_is_-1", "first_queried_label_is_0",
+                              "first_queried_label_is_dtype_min_or_max", "matrix_dtype_differs_from_map_dtype")),
     SubCheck("history", check_history, history_case(), quick=300, thorough=4000, shards_quick=4,
              rule="map as in interp x 1-8 operations on up to 6 live map objects (build_spline again, remove/select a whole "
                   "chromosome or one marker, reassign genetic positions, interp_gmap on a sub-panel, copy/deepcopy, constructor "
@@ -1194,5 +1295,6 @@ SUBCHECKS = [
              required_labels=("standard", "extended", "same_arrays_asked_again_after_in_place_edit",
                               "same_matrix_asked_again_after_in_place_edit", "matrix_edit_took_effect", "method_gdist1p",
                               "method_gdist2p", "method_rprob1p", "method_rprob2p", "method_interp_gmap", "method_interp_genpos",
-                              "edit_positions", "edit_one_position", "edit_relabel", "edit_all")),
+                              "edit_positions", "edit_one_position", "edit_relabel", "edit_all", "chr_label_negative",
+                              "chr_dtype_narrow_or_unsigned", "first_queried_label_is_-1", "first_queried_label_is_0")),
 ]
